@@ -24,7 +24,7 @@ def main():
         "setup_cmd": "./setup.sh",
         "hooks": {
             "guard": "PIQUASSO_VERIF",
-            "enable": "no source hooks are needed: the checks import /repo's working tree and drive it from outside (module-global substitution inside the harness process, numba .py_func, recompilation of src/*.cpp to LLVM IR)",
+            "enable": "no source hooks are needed: the checks import /repo's working tree and drive it from outside (module-global substitution inside the harness process, numba .py_func, clang AST dump / plain recompilation of src/*.cpp)",
             "baseline_off_cmd": "cd /repo && /venv/bin/python -m pytest -ra -q -p no:cacheprovider --timeout=900 --continue-on-collection-errors",
             "source_commits": [],
             "add_only": True,
@@ -34,8 +34,8 @@ def main():
              "kind_free_text": "symbolic execution of the real numeric Python code on z3-Real complex scalars in numpy object arrays; obligations decided by z3 nlsat / z3 nla+Groebner / cvc5; sat models replayed on the float code"},
             {"name": "E-CH", "path": "pqverif/ch.py", "serves_properties": sorted(p for p, c in CHECKS.items() if "E-CH" in c["engine"]),
              "kind_free_text": "CrossHair (symbolic execution of Python with z3) on generated harness functions calling the real piquasso code"},
-            {"name": "E-LL", "path": "pqverif/ll.py", "serves_properties": sorted(p for p, c in CHECKS.items() if "E-LL" in c["engine"]),
-             "kind_free_text": "symbolic interpreter for the clang-14 LLVM IR of src/*.cpp with z3 bit-vectors / reals"},
+            {"name": "E-CX", "path": "pqverif/cx.py", "serves_properties": sorted(p for p, c in CHECKS.items() if "E-CX" in c["engine"]),
+             "kind_free_text": "symbolic interpreter for clang-14's JSON AST of src/*.cpp (instantiated templates) on z3 reals and machine integers with C++ width obligations; a UBSan-compiled twin of the same source replays counterexamples and validates the interpreter"},
         ],
         "checks": checks,
         "not_applicable": [{"property_id": p, "reason": r} for p, r in sorted(NOT_APPLICABLE.items())],
